@@ -181,6 +181,8 @@ def cases(tier):
                 chain = [(c, hop_url(nx, i + 1)) for i, (c, nx) in enumerate(zip(codes, nexts))]
                 for cookies in (True, False) if n <= 2 else (True,):
                     out.append(dict(start=base, chain=chain, cookies=cookies))
+                # the cookie jar ignores URLs with user-info: same chains from a plain start
+                out.append(dict(start='http://a.test/start', chain=chain, cookies=True))
     for loc in LOCATIONS:
         for code in CODES:
             out.append(dict(start='http://a.test/s', chain=[(code, loc)], cookies=True))
